@@ -54,6 +54,8 @@ HOLDING_ASSUMPTIONS = [
     "held batches are single conversions put into holding by the real ApplyTransactionBlock in earlier committed blocks; multi-transaction batches with a PEG request in the bank era (known legacy findings D8/D15, DESIGN §8) are outside this harness",
     "averaging period reduced to 3 (package variable) so that the averages are those of the last rated block; rates of the executing block are the table rows InsertRates would have written",
 ]
+GRADEGLUE = {"id": "grade-glue", "func": "VerifGradeGlue", "pkg": NODE, "pkgname": "node", "load": ["./node"],
+             "params": {"quick": {}, "thorough": {}}, "must_cover": ["mining", "staking"], "max_witness_replays": 6}
 TXBLOCK_ASSUMPTIONS = [
     "ideal-signature model of fat103.Validate: a signature verifies only for the key holder's own (salt, chain id, content); ext-id count, +-12 h salt window against the block time and the RCD-type mask are modelled exactly as the library implements them (native replays use real ed25519/secp256k1 signatures)",
     "entry content = opaque carrier of a decoded batch or unparsable content (JSON parser itself not encoded: C20 not-applicable sub-claim)",
@@ -225,6 +227,7 @@ PROPS = {
         "harnesses": [
             {"id": "rewards", "func": "VerifRewards", "pkg": NODE, "pkgname": "node", "load": ["./node"],
              "params": {"quick": {"maxwinners": 3}, "thorough": {"maxwinners": 4}}, "must_cover": ["winners", "no-winners"], "max_witness_replays": 6},
+            GRADEGLUE,
         ],
         "bounds": {"quick": "ApplyGradedOPRBlock / ApplyGradedSPRBlock with an arbitrary verdict of 0..3 winners (payouts 0..2^58, payout address one of two addresses or unparsable), symbolic height and block time, prior balances symbolic",
                    "thorough": "0..4 winners"},
@@ -291,7 +294,7 @@ PROPS = {
     },
     "C08": {
         "asserts": ["C08.", "uncaught-panic"],
-        "harnesses": TXBLOCK_HARNESSES + HOLDING_HARNESSES + [
+        "harnesses": TXBLOCK_HARNESSES + HOLDING_HARNESSES + [GRADEGLUE] + [
             {"id": "snapshot-live", "func": "VerifSnapshot", "pkg": NODE, "pkgname": "node", "load": ["./node"],
              "params": {"quick": {"both": 2, "extras": 1, "assets": 1}, "thorough": {"both": 2, "extras": 1, "assets": 2}},
              "must_cover": ["paid"], "max_witness_replays": 2},
